@@ -148,7 +148,12 @@ def big_binop(I, m, a, dt):
     return VBig(big_op(I, op, x, y))
 def big_op(I, op, x, y):
     if op == 'add': return x + y
-    if op == 'sub': return x - y
+    if op == 'sub':
+        # x - d*q where q is the quotient witness of x by d: that is the remainder witness (keeps long division flat)
+        if not is_conc(x) and not is_conc(y):
+            for (xk, d), (q, r) in I.path_state.get('divwit', {}).items():
+                if z3.is_true(z3.simplify(iz(y) == q * d)) and z3.simplify(iz(x)).sexpr() == xk: return r
+        return x - y
     if op == 'mul': return x * y
     if op in ('div', 'rem'):
         if I.branch(y == 0): raise PathEnd('panic', 'BigInt division by zero')
@@ -157,6 +162,17 @@ def big_op(I, op, x, y):
             return q if op == 'div' else x - q * y
         # truncating division; the harness keeps operands non-negative where it matters
         nonneg = I.check(z3.Or(iz(x) < 0, iz(y) < 0)) == z3.unsat
+        if nonneg and is_conc(y) and not is_conc(x):
+            # division by a positive constant: fresh quotient/remainder witnesses (x = q*y + r, 0 <= r < y) keep the
+            # constraints linear and flat instead of nesting div terms (long division, digit counting)
+            key = (z3.simplify(iz(x)).sexpr(), y)
+            wit = I.path_state.setdefault('divwit', {})
+            if key not in wit:
+                q = I.fresh_int('quo'); r = I.fresh_int('rem')
+                I.assume(z3.And(iz(x) == q * y + r, r >= 0, r < y, q >= 0))
+                wit[key] = (q, r)
+            q, r = wit[key]
+            return q if op == 'div' else r
         if nonneg:
             return iz(x) / iz(y) if op == 'div' else iz(x) % iz(y)
         ax = z3.If(iz(x) < 0, -iz(x), iz(x)); ay = z3.If(iz(y) < 0, -iz(y), iz(y))
@@ -187,7 +203,11 @@ def big_zero_one(I, m, a, dt):
 @model(r'^<' + BIG + r' as (?:num::|num_traits::)?(?:sign::)?Signed>::(abs|signum|is_negative|is_positive)$')
 def big_signed(I, m, a, dt):
     x = big_arg(I, a[0]); k = m.group(1)
-    if k == 'abs': return VBig(abs(x) if is_conc(x) else z3.If(x < 0, -x, x))
+    if k == 'abs':
+        if is_conc(x): return VBig(abs(x))
+        if I.check(x < 0) == z3.unsat: return VBig(x)
+        if I.check(x > 0) == z3.unsat: return VBig(z3.simplify(-x))
+        return VBig(z3.If(x < 0, -x, x))
     if k == 'signum': return VBig(((x > 0) - (x < 0)) if is_conc(x) else z3.If(x > 0, 1, z3.If(x < 0, -1, 0)))
     return VBool(x < 0 if k == 'is_negative' else x > 0)
 @model(r'^' + BIG + r'::sign$')
